@@ -1,5 +1,6 @@
 import RisorModel.Util
 import RisorModel.C06.Model
+import RisorModel.C06.Shared
 /-!
 Line-protocol front end of the C06 model (requests after the leading `C06` field).
 
@@ -32,6 +33,17 @@ Line-protocol front end of the C06 model (requests after the leading `C06` field
         the same for an evaluation started on a VM that has been used before (`restart`);
         the extra field `lost=` lists the outcomes when `RunCode`'s second `halt := 0` wipes
         the store of the watcher it has just armed (possible only for `runcode` + `pre`)
+
+  shared <chans> <consumers> <cancellations>
+        SEVERAL evaluations sharing host-supplied channel objects (`RisorModel/C06/Shared.lean`):
+        chans = `len/cap,…` (channel 0, 1, …), consumers = `ctx:op@chan+op@chan,…` in the order
+        in which they were started (op = range | arrow | receive | send; `ctx:-` = no channel
+        operation), cancellations = context ids in the order in which they are cancelled (`-` =
+        none).  Reply: `impl=` the consumers that have ended after all of them were started and
+        after every cancellation (`;`-separated lists, everything settled: `Shared.settle`)
+        under the code as it is (`stepCon`; `SharedProps.C06_shared_own_context_suffices`), and
+        `lock=` the same under the CONTRAST in which `Chan.Next` takes a lock of the channel
+        object before it waits (`stepLock`; `SharedProps.lockFirst_not_stopped`)
 
 The reply lists what the Impl model allows for the case: where every thread parks when
 nothing is cancelled, whether the main thread would ever return by itself, and the set of
@@ -103,6 +115,18 @@ def round (cfg : Cfg) (s : Sys) : Sys :=
   (List.range s.threads.length).foldl
     (fun s i => apply cfg (if i = 0 then s else apply cfg s (.fire i)) (.step i)) s
 
+/-- `size` counts a `spawn` as one step of the SPAWNER; the rounds a whole system needs to settle
+    also cover the bodies that run on the spawned threads (nested spawns run one after the
+    other), so the oracle's fuel is taken from this measure.  Fuel only: no theorem depends on it. -/
+def deepSize : Prog → Nat
+  | .done => 2
+  | .compute k => 1 + deepSize k
+  | .spin => 2
+  | .block _ k => 3 + deepSize k
+  | .cb _ body k => 2 + deepSize body + deepSize k
+  | .spawn _ body k => 1 + deepSize body + deepSize k
+  | .defer_ d k => 6 + deepSize d + deepSize k
+
 def settle (cfg : Cfg) : Nat → Sys → Sys
   | 0, s => s
   | f + 1, s => let s' := round cfg s; if s' == s then s else settle cfg f s'
@@ -142,7 +166,7 @@ def dedup (xs : List String) : List String :=
 /-- outcomes of the evaluation whose main thread is the head of `s0` (not yet cancelled):
     where the threads park, whether main ends by itself, the outcome set over the race -/
 def outcomesFrom (cfg : Cfg) (instant : String) (p : Prog) (s0 : Sys) : String × Bool × List String :=
-  let fuel := 2 * size p + 8
+  let fuel := 2 * deepSize p + 8
   let sA := if instant = "pre" then s0 else settle cfg fuel s0
   let nonterm := match (settle cfg fuel s0).threads with
     | m :: _ => !m.st.isFin
@@ -184,7 +208,7 @@ def withShape (shape : String) (f : Prog → String) : String :=
 /-- the main thread at the instant of the cancellation, and what the frames it is inside of
     hold -/
 def deferredCase (cfg : Cfg) (instant : String) (p : Prog) : String :=
-  let fuel := 2 * size p + 8
+  let fuel := 2 * deepSize p + 8
   let s0 := init (setPop false p)
   let sA := if instant = "pre" then s0 else settle cfg fuel s0
   match sA.threads with
@@ -198,7 +222,7 @@ def deferredCase (cfg : Cfg) (instant : String) (p : Prog) : String :=
 
 /-- the case seen from the context a module body is handed -/
 def importedCase (cfg : Cfg) (instant : String) (p : Prog) : String :=
-  let fuel := 2 * size p + 8
+  let fuel := 2 * deepSize p + 8
   let s0 := init (setPop false p)
   let sA := if instant = "pre" then s0 else settle cfg fuel s0
   match sA.threads with
@@ -213,7 +237,61 @@ def importedCase (cfg : Cfg) (instant : String) (p : Prog) : String :=
       ++ "\tstops=" ++ b (stops m) ++ "\tstops_detached=" ++ b (stopsImp .detached m)
       ++ "\tinherit=" ++ ids inh ++ "\tnever_detached=" ++ ids never
 
+/-! ### several evaluations sharing channel objects -/
+
+def parseOp : String → Option Shared.Op
+  | "range" => some .range | "arrow" => some .arrow | "receive" => some .receive
+  | "send" => some .send | _ => none
+
+def parseTodo (s : String) : Option (List (Shared.Op × Nat)) :=
+  if s == "-" then some [] else
+  (s.splitOn "+").mapM fun t =>
+    match t.splitOn "@" with
+    | [o, c] => do
+      let o ← parseOp o
+      let c ← c.toNat?
+      pure (o, c)
+    | _ => none
+
+def parseCon (s : String) : Option Shared.Con :=
+  match s.splitOn ":" with
+  | [k, todo] => do
+    let k ← k.toNat?
+    let todo ← parseTodo todo
+    pure { ctx := k, todo := todo, ended := false }
+  | _ => none
+
+def parseCh (s : String) : Option Shared.Ch :=
+  match s.splitOn "/" with
+  | [l, c] => do
+    let l ← l.toNat?
+    let c ← c.toNat?
+    pure { len := l, cap := c }
+  | _ => none
+
+def natList (xs : List Nat) : String :=
+  if xs.isEmpty then "-" else ",".intercalate (xs.map toString)
+
+/-- the consumers that have ended after the start and after every cancellation, settled -/
+def sharedRun (step : Shared.Sys → Nat → Bool → Shared.Sys) (cons : List Shared.Con)
+    (chans : List Shared.Ch) (cancels : List Nat) : String :=
+  let n := cons.length
+  let k := cons.foldl (fun a x => a + x.todo.length) 0 + 2
+  let s0 := Shared.settle step n k (Shared.ofLists cons chans)
+  let r := cancels.foldl (fun (acc : Shared.Sys × List String) c =>
+      let s := Shared.settle step n k (Shared.applyWith step acc.1 (.cancel c))
+      (s, acc.2 ++ [natList (Shared.endedSet n s)])) (s0, [natList (Shared.endedSet n s0)])
+  ";".intercalate r.2
+
+def sharedCase (chans cons cancels : String) : String :=
+  match (chans.splitOn ",").mapM parseCh, (cons.splitOn ",").mapM parseCon,
+      (if cancels == "-" then some [] else (cancels.splitOn ",").mapM String.toNat?) with
+  | some chs, some cs, some ks =>
+    "ok\timpl=" ++ sharedRun Shared.stepCon cs chs ks ++ "\tlock=" ++ sharedRun Shared.stepLock cs chs ks
+  | _, _, _ => "error\tbad-shared-case"
+
 def handle : List String → String
+  | ["shared", chans, cons, cancels] => sharedCase chans cons cancels
   | ["deferred", instant, shape] => withShape shape (deferredCase implCfg instant)
   | ["imported", instant, shape] => withShape shape (importedCase implCfg instant)
   | ["run", instant, shape] => withShape shape (runCase implCfg true .run instant)
